@@ -41,6 +41,11 @@ var binaryEscapes = []byte{'\\', '"', '\b', '\f', '\n', '\r', '\t'}
 // JSON literals
 var literals = []string{"true", "false", "null"}
 
+// maxNestingDepth is the maximum depth of nested arrays and objects that is accepted (the same limit
+// encoding/json applies). The parser is recursive: without a limit a few megabytes of '[' exhaust the
+// goroutine stack, which terminates the process.
+const maxNestingDepth = 10000
+
 func Transform(jsonData []byte) (result []byte, e error) {
 	// JSON data MUST be UTF-8 encoded
 	var jsonDataLength int = len(jsonData)
@@ -56,6 +61,9 @@ func Transform(jsonData []byte) (result []byte, e error) {
 	var parseArray func() string
 
 	var globalError error = nil
+
+	// Current nesting depth of arrays and objects
+	var depth int = 0
 
 	checkError := func(e error) {
 		// We only honor the first reported error
@@ -254,6 +262,12 @@ func Transform(jsonData []byte) (result []byte, e error) {
 	}
 
 	parseArray = func() string {
+		depth++
+		if depth > maxNestingDepth {
+			setError("Exceeded maximum nesting depth")
+			depth--
+			return ""
+		}
 		var arrayData strings.Builder
 		arrayData.WriteByte('[')
 		var next bool = false
@@ -268,6 +282,7 @@ func Transform(jsonData []byte) (result []byte, e error) {
 		}
 		scan()
 		arrayData.WriteByte(']')
+		depth--
 		return arrayData.String()
 	}
 
@@ -302,6 +317,12 @@ func Transform(jsonData []byte) (result []byte, e error) {
 	}
 
 	parseObject = func() string {
+		depth++
+		if depth > maxNestingDepth {
+			setError("Exceeded maximum nesting depth")
+			depth--
+			return ""
+		}
 		nameValueList := list.New()
 		var next bool = false
 	CoreLoop:
@@ -351,6 +372,7 @@ func Transform(jsonData []byte) (result []byte, e error) {
 			objectData.WriteString(nameValue.value)
 		}
 		objectData.WriteByte('}')
+		depth--
 		return objectData.String()
 	}
 
